@@ -35,3 +35,77 @@ Theorem C04_contract_from_libc_clauses : forall strtod fmt_d fmt_g15 fmt_g17 ssc
 Proof. exact roundtrip_spec_intro. Qed.
 Print Assumptions C04_contract_from_libc_clauses.
 
+
+(** * Clause N3 ("17 significant digits identify a double") PROVED for the reference library
+
+    LibcG17*.v: for EVERY finite well-formed double d (normal, subnormal, both zeros, DBL_MAX),
+    the reference strtod applied to the reference sprintf "%1.17g" of d consumes the whole text
+    and returns exactly d.  Parts: the arithmetic of fmt_g (LibcG17Arith: the 17-digit decimal is
+    within v * 2^-54 of the value v; the estimate of the decimal exponent is checked by
+    computation for the 2098 possible binary exponents), the text (LibcG17Text: %f and %e layouts
+    with stripped zeros are read back to the same decimal), the rounding of strtod_ref
+    (LibcG17Round: Flocq's theorems for binary_normalize and for the division of unnormalised
+    operands) and the mathematical core (LibcG17Math: 2^53 < 10^16, the half-size gap below a
+    power of two, the constant gap of the subnormals, no overflow at the top). *)
+From Coq Require Import Reals.
+From Flocq Require Import Core.Core.
+From CJ Require Import LibcPrint LibcG17R LibcG17Math LibcG17 LibcG17Contract.
+
+Theorem C04_g17_roundtrip_ref : forall d, is_finite d = true -> dbl_ok d ->
+  exists k, strtod_ref (fmt_g17 d) = Some (d, k).
+Proof. exact g17_roundtrip_ref. Qed.
+Print Assumptions C04_g17_roundtrip_ref.
+
+(** the same with the number of bytes consumed: all of the text *)
+Theorem C04_g17_roundtrip_ref_len : forall d, is_finite d = true -> dbl_ok d ->
+  strtod_ref (fmt_g17 d) = Some (d, length (fmt_g17 d)).
+Proof. exact g17_roundtrip_ref_len. Qed.
+Print Assumptions C04_g17_roundtrip_ref_len.
+
+(** sscanf "%lg" (the test print_number makes on its "%1.15g" / "%1.17g" output) *)
+Theorem C04_g17_sscanf_ref : forall d, is_finite d = true -> dbl_ok d -> sscanf_lg (fmt_g17 d) = Some d.
+Proof. exact g17_sscanf_ref. Qed.
+Print Assumptions C04_g17_sscanf_ref.
+
+(** the signed zeros: "-0" reads back as -0.0 *)
+Theorem C04_g17_roundtrip_ref_zeros :
+  strtod_ref (fmt_g17 (S754_zero true)) = Some (S754_zero true, 2%nat) /\
+  strtod_ref (fmt_g17 (S754_zero false)) = Some (S754_zero false, 1%nat).
+Proof. exact g17_roundtrip_ref_zeros. Qed.
+Print Assumptions C04_g17_roundtrip_ref_zeros.
+
+(** non-vacuity: the hypotheses hold for DBL_MAX ("1.7976931348623157e+308", a decimal ABOVE
+    DBL_MAX), for the negative smallest subnormal ("-4.9406564584124654e-324") and for 0.1
+    ("0.10000000000000001") *)
+Theorem C04_g17_roundtrip_ref_nonvacuous :
+  (is_finite DBL_MAX = true /\ dbl_ok DBL_MAX /\
+   fmt_g17 DBL_MAX = [49;46;55;57;55;54;57;51;49;51;52;56;54;50;51;49;53;55;101;43;51;48;56]) /\
+  (is_finite g17_ex_min = true /\ dbl_ok g17_ex_min /\
+   fmt_g17 g17_ex_min = [45;52;46;57;52;48;54;53;54;52;53;56;52;49;50;52;54;53;52;101;45;51;50;52]) /\
+  (is_finite g17_ex_tenth = true /\ dbl_ok g17_ex_tenth /\
+   fmt_g17 g17_ex_tenth = [48;46;49;48;48;48;48;48;48;48;48;48;48;48;48;48;48;48;49]).
+Proof. exact g17_roundtrip_ref_nonvacuous. Qed.
+Print Assumptions C04_g17_roundtrip_ref_nonvacuous.
+
+(** the mathematical core over Flocq's reals: v > 0 a binary64 value (format FLT, precision 53,
+    minimal exponent -1074; normal or subnormal), 10^X <= v, and w within half a unit of the 17th
+    significant decimal digit of v — then w rounds to v (to nearest, whatever the tie rule) *)
+Theorem C04_g17_math_core : forall choice v w X,
+  generic_format radix2 (SpecFloat.fexp 53 1024) v -> (bpow r10 X <= v)%R ->
+  (Rabs (w - v) <= bpow r10 (X - 16) / 2)%R ->
+  round radix2 (SpecFloat.fexp 53 1024) (Znearest choice) w = v.
+Proof. exact round_decimal17. Qed.
+Print Assumptions C04_g17_math_core.
+
+(** the contract for the reference library: clauses S, V, N2, N3, N4z are now theorems, so
+    [LibcRoundTripSpec] of the reference instance follows from its three "%1.15g" clauses alone *)
+Theorem C04_ref_contract_from_g15_clauses :
+  (forall d t k, is_finite d = true -> dbl_ok d ->
+      strtod_ref (LibcPrint.fmt_g15 d) = Some (t, k) -> is_finite t = true ->
+      LibcPrint.fmt_g15 t = LibcPrint.fmt_g15 d) ->
+  (forall z, int_range z = true -> LibcPrint.fmt_g15 (dbl_of_int z) = LibcPrint.fmt_d z) ->
+  (forall z, Z.abs z < 10 ^ 15 ->
+      exists k, strtod_ref (LibcPrint.fmt_g15 (dbl_of_int z)) = Some (dbl_of_int z, k)) ->
+  LibcRoundTripSpec strtod_ref LibcPrint.fmt_d LibcPrint.fmt_g15 LibcPrint.fmt_g17 LibcPrint.sscanf_lg.
+Proof. exact ref_contract_from_g15_clauses. Qed.
+Print Assumptions C04_ref_contract_from_g15_clauses.
